@@ -552,6 +552,102 @@ def _declare_h():
     return SchemaInfo("H", classes, fields, {}, ctor, targets, also)
 
 
+def _declare_f():
+    """classes with their OWN truthiness: PdBag defines `__len__` backed by a mutable attribute (an empty bag is
+    falsy), PdFlag defines `__bool__`. Fields 0..5 have the shape of schema L (over bags), 6/7 relate bags and flags
+    through an inverse pair, 8 is single-valued and transitive on the `__bool__` class, 9 transitive on bags."""
+    from dataclasses import dataclass, field
+    from typing_extensions import List, Set
+    from krrood.entity_query_language.predicate import Symbol
+    from krrood.ontomatic.property_descriptor.mixins import HasInverseProperty, TransitiveProperty
+    from krrood.ontomatic.property_descriptor.property_descriptor import PropertyDescriptor
+
+    g = sys.modules[__name__].__dict__
+
+    @dataclass(eq=False)
+    class PdBag(Symbol):
+        idx: int
+        size: int = 1
+        items: List[PdBag] = field(default_factory=list)
+        all_items: List[PdBag] = field(default_factory=list)
+        item_of: List[PdBag] = field(default_factory=list)
+        tags: Set[PdBag] = field(default_factory=set)
+        all_tags: Set[PdBag] = field(default_factory=set)
+        tag_of: Set[PdBag] = field(default_factory=set)
+        flags: List[PdFlag] = field(default_factory=list)
+        within: List[PdBag] = field(default_factory=list)
+
+        def __hash__(self):
+            return self.idx
+
+        def __len__(self):
+            return self.size
+
+    @dataclass(eq=False)
+    class PdFlag(Symbol):
+        idx: int
+        on: bool = True
+        flag_of: Set[PdBag] = field(default_factory=set)
+        next: PdFlag = None
+
+        def __hash__(self):
+            return self.idx
+
+        def __bool__(self):
+            return self.on
+
+    g.update(PdBag=PdBag, PdFlag=PdFlag)
+
+    def inv_pair(n1, n2):
+        a = type(n1, (PropertyDescriptor, HasInverseProperty), {"__module__": __name__})
+        b = type(n2, (PropertyDescriptor, HasInverseProperty), {"__module__": __name__})
+        a.get_inverse = classmethod(lambda cls: b)
+        b.get_inverse = classmethod(lambda cls: a)
+        return dataclass(a), dataclass(b)
+
+    FAllItems, FItemOf = inv_pair("FAllItems", "FItemOf")
+    FAllTags, FTagOf = inv_pair("FAllTags", "FTagOf")
+    FFlags, FFlagOf = inv_pair("FFlags", "FFlagOf")
+
+    @dataclass
+    class FItems(FAllItems): ...
+
+    @dataclass
+    class FTags(FAllTags): ...
+
+    @dataclass
+    class FNext(PropertyDescriptor, TransitiveProperty): ...
+
+    @dataclass
+    class FWithin(PropertyDescriptor, TransitiveProperty): ...
+
+    PdBag.items = FItems(PdBag, "items")
+    PdBag.all_items = FAllItems(PdBag, "all_items")
+    PdBag.item_of = FItemOf(PdBag, "item_of")
+    PdBag.tags = FTags(PdBag, "tags")
+    PdBag.all_tags = FAllTags(PdBag, "all_tags")
+    PdBag.tag_of = FTagOf(PdBag, "tag_of")
+    PdBag.flags = FFlags(PdBag, "flags")
+    PdFlag.flag_of = FFlagOf(PdFlag, "flag_of")
+    PdFlag.next = FNext(PdFlag, "next")
+    PdBag.within = FWithin(PdBag, "within")
+    fields = [(0, "items"), (0, "all_items"), (0, "item_of"), (0, "tags"), (0, "all_tags"), (0, "tag_of"),
+              (0, "flags"), (1, "flag_of"), (1, "next"), (0, "within")]
+    targets = {0: [0], 1: [0], 2: [0], 3: [0], 4: [0], 5: [0], 6: [1], 7: [0], 8: [1], 9: [0]}
+    ctor = {0: lambda i, rt: PdBag(i), 1: lambda i, rt: PdFlag(i)}
+    return SchemaInfo("F", [PdBag, PdFlag], fields, {}, ctor, targets)
+
+
+def set_truthiness(obj, truthy: bool) -> None:
+    """make an instance of a class with its own `__len__` / `__bool__` falsy or truthy"""
+    if hasattr(obj, "size"):
+        obj.size = 1 if truthy else 0
+    elif hasattr(obj, "on"):
+        obj.on = bool(truthy)
+    else:
+        raise ValueError("instance has no truthiness of its own")
+
+
 def _declare_u():
     m = _load_university()
     classes = [m.Person, m.Company, m.CEO]
@@ -565,7 +661,7 @@ def _declare_u():
 def schema(tag: str) -> SchemaInfo:
     """declare (once per process) and describe a schema; needs krrood importable"""
     if tag not in _SCHEMAS:
-        _SCHEMAS[tag] = {"U": _declare_u, "D": _declare_d, "L": _declare_l, "V": _declare_v, "H": _declare_h}[tag]()
+        _SCHEMAS[tag] = {"U": _declare_u, "D": _declare_d, "L": _declare_l, "V": _declare_v, "H": _declare_h, "F": _declare_f}[tag]()
     return _SCHEMAS[tag]
 
 
@@ -664,6 +760,9 @@ def run_c15_line(line: str) -> str:
                 continue
             if op[0] == "sweep":     # what every query evaluation does first
                 sg.remove_dead_instances()
+                continue
+            if op[0] in ("falsy", "truthy"):   # an instance with its own __len__ / __bool__ changes its truthiness
+                set_truthiness(objs[int(op[1])], op[0] == "truthy")
                 continue
             kind, f, src = op[0], int(op[1]), objs[int(op[2])]
             name = info.attr(f, classes_of[int(op[2])])
@@ -795,6 +894,9 @@ def run_c16_line(line: str) -> str:
             if op[0] == "drop":     # the program forgets an element that is no longer in the field: it dies at once
                 dead_ids.add(id(objs[int(op[1])]))
                 objs[int(op[1])] = None
+                continue
+            if op[0] in ("falsy", "truthy"):
+                set_truthiness(objs[int(op[1])], op[0] == "truthy")
                 continue
             if op[0] == "fresh":    # a new element is created; CPython gives it a freed address
                 i = int(op[1])
